@@ -899,8 +899,10 @@ def extra_checks(tier, seed, pool):
                             'path_condition': [], 'solver': 'bounded native check', 'native': r}]
     if extra_fail:
         out['failures'] = out.get('failures', []) + extra_fail
-    if extra_err:
-        out['errors'] = extra_err
+    from . import conformance
+    conf = conformance.run(['json_getval', 'dict_without', 'time parsers'])
+    out['errors'] = extra_err + conf['errors']
+    out['samples'] = out.get('samples', []) + conf['samples']
     return out
 
 
